@@ -426,3 +426,33 @@ def brief(diffs, n=6):
     if len(diffs) > n:
         out.append("... %d more" % (len(diffs) - n))
     return out
+
+
+def compare_runs(ra, rb, map_b_to_a=None, tol=FLOAT_TOL, skip=(), text=False, only=None,
+                 dets=True, conf_map=None):
+    """Differences between two executions (exception type, conformation names, every
+    conformation incl. AVR, optionally the .pka text minus the date line)."""
+    diffs = []
+    if (ra.exc_type or rb.exc_type):
+        if ra.exc_type != rb.exc_type:
+            diffs.append(("exception", ra.exc, rb.exc))
+        return diffs
+    na, nb = ra.rec["names"], rb.rec["names"]
+    if conf_map is None and na != nb:
+        diffs.append(("conformation-names", na, nb))
+        return diffs
+    for name in list(na) + ["AVR"]:
+        other = conf_map.get(name, name) if conf_map else name
+        if other not in rb.rec["confs"]:
+            diffs.append(("conformation-missing", other))
+            continue
+        for d in compare_confs(ra.rec["confs"][name], rb.rec["confs"][other], map_b_to_a, tol, skip,
+                               only, dets):
+            diffs.append((name,) + tuple(d))
+    if text and ra.text is not None:
+        if strip_date(ra.text) != strip_date(rb.text or ""):
+            la = strip_date(ra.text).split("\n")
+            lb = strip_date(rb.text or "").split("\n")
+            first = next(((x, y) for x, y in zip(la, lb) if x != y), (len(la), len(lb)))
+            diffs.append(("pka-text", first))
+    return diffs
